@@ -170,7 +170,7 @@ def field_attrs(f, named):
     if f.get("skip_de"):
         # serde still WRITES the field (ts-rs does not know the key and must leave the field alone); the type needs Default
         sd.append("skip_deserializing")
-    docs = "".join("#[doc = %s] " % rust_str_lit(l) for l in f["docs"])
+    docs = "".join("#[doc = %s] " % rust_str_lit(l) for l in f["docs"]) + ("#[doc(alias = \"al\")] " if f.get("doc_alias") else "")   # list-form doc attributes carry no documentation
     return docs + attr_list("ts", ts) + attr_list("serde", sd)
 
 
@@ -222,7 +222,7 @@ def to_rust(d):
             split_concrete = "".join("#[ts(concrete(%s = %s))]\n" % (pnames[int(i)], rust_ty(t)) for i, t in d["concrete"])
         else:
             ts.append("concrete(%s)" % ", ".join("%s = %s" % (pnames[int(i)], rust_ty(t)) for i, t in d["concrete"]))
-    docs = "".join("#[doc = %s]\n" % rust_str_lit(l) for l in d["docs"])
+    docs = "".join("#[doc = %s]\n" % rust_str_lit(l) for l in d["docs"]) + ("#[doc(hidden)]\n#[doc(alias = \"other\")]\n" if d.get("doc_list") else "")
     derives = "#[derive(TS, Serialize, Deserialize, Debug, Clone, PartialEq%s)]\n" % (", Eq, Hash, PartialOrd, Ord" if d.get("as_key") else "") + split_concrete
     if d["kind"] == "struct":
         if d["tag"] is not None:
